@@ -13,7 +13,7 @@ import (
 var payloadValid = []string{"a", "bc", "key", " ", "  ", "\n", "\n\n", startM, endM, "\xc3\x97", redactedM, "?", "é", "日本", "\U0001f6d1",
 	"\"", "`", "\\", "\t", "\x00", "%", "%d", "0", "-1", "x=1", "‹un›", "›‹", "<nil>", "Z",
 	// valid runes whose encoding shares bytes with the markers (E2 80 B9 / E2 80 BA)
-	"º", "¹", "‰", "※", "€", "\u0080", "к"}
+	"º", "¹", "‰", "※", "€", "\u0080", "к", "☺", "⁹", "₺"}
 var payloadInvalid = []string{"\xe2", "\xe2\x80", "\x80\xb9", "\x80\xba", "\xb9", "\xff", "\xf0\x9f", "\xc3", "\xe2\x80\xe2\x80\xb9"}
 
 type genOpts struct {
@@ -408,7 +408,7 @@ func randStep(r *Rng, depth int, o genOpts) *D {
 
 // ---- formats ----------------------------------------------------------------------
 
-var litPieces = []string{"x", "lit ", "=", ":", " ", "\n", startM, endM, redactedM, "é", "%%", "\t", "(", ")", "?", "nº", "‰", "※", "¹"}
+var litPieces = []string{"x", "lit ", "=", ":", " ", "\n", startM, endM, redactedM, "é", "%%", "\t", "(", ")", "?", "nº", "‰", "※", "¹", "ok ☺", "⁹"}
 var litInvalid = []string{"\xe2", "\xe2\x80", "\x80\xb9", "\xff"}
 
 func randLit(r *Rng, o genOpts) string {
